@@ -105,3 +105,26 @@ Example ex_drop : In (PExec 1000 100) (spawn_child 1000 100 {| pf_setgroups := f
                /\ spawn_child 0 0 {| pf_setgroups := false; pf_setgid := false; pf_setuid := false |} = [PSetGroups 0 true; PSetGid 0 true; PSetUid 0 true; PExit 113]
                /\ spawn_child 4294967296 5 {| pf_setgroups := false; pf_setgid := false; pf_setuid := false |} = [PSetGroups 5 true; PSetGid 5 true; PSetUid 0 true; PExit 113].
 Proof. vm_compute. repeat split. do 3 right. left. reflexivity. Qed.
+
+(* ---- from the text of users/assign to the bytes of users/cdb and back ----
+   Local/NewU.v models qmail-newu's line parser, Base/Cdb.v the cdb writer and reader on the file image,
+   Local/AssignImg.v nughde_get() on that image.  The abstraction "first record with that key" used above
+   is now a theorem about the byte layout (hash tables, linear probing). *)
+From NQ Require Base.Cdb Base.CdbProofs Local.NewU Local.NewUProofs Local.AssignImg Local.AssignImgProofs.
+Theorem newu_parses_canonical_text : forall t, Forall NewUProofs.line_ok t -> NewU.newu (NewUProofs.render t) = Some (compile t).
+Proof. exact NewUProofs.newu_render. Qed.
+Print Assumptions newu_parses_canonical_text.
+Theorem lookup_in_file_image_is_table_lookup : forall db local, Cdb.recs_ok db -> Cdb.bytes_ok local ->
+  AssignImg.nughde_get_img (Cdb.cdb_make db) local = nughde_get db local.
+Proof. exact AssignImgProofs.nughde_get_img_eq. Qed.
+Print Assumptions lookup_in_file_image_is_table_lookup.
+Theorem cdb_first_record_with_key : forall rs key, Cdb.recs_ok rs -> Cdb.bytes_ok key ->
+  Cdb.cdb_get (Cdb.cdb_make rs) key = Cdb.get_spec rs key.
+Proof. exact CdbProofs.cdb_get_make. Qed.
+Print Assumptions cdb_first_record_with_key.
+Example assign_text_to_image_nonvacuous :
+  let t := [{| a_kind := AWild; a_loc := [74;111;101;45]; a_fields := [[106]; [53]; [54]; [47]; [45]; []] |}] in     (* +Joe-:j:5:6:/:-:: *)
+  Forall NewUProofs.line_ok t /\
+  option_map (fun img => AssignImg.nughde_get_img img [106;111;101;45;120]) (NewU.newu_image (NewUProofs.render t))
+  = Some (LFound [106;0;53;0;54;0;47;0;45;0;120]).
+Proof. split; [repeat constructor; cbn; intuition discriminate | vm_compute; reflexivity]. Qed.
